@@ -523,6 +523,13 @@ func (c *checker) oneConn(i int, be *rig.Backend, px *rig.Proxy, custom bool) {
 	if withCCS {
 		run.Add("e2e_connections_hello_and_ccs_in_one_segment", 1)
 	}
+	if len(stream) >= 5 {
+		if n := int(stream[3])<<8 | int(stream[4]); n >= 16380 {
+			run.Add("e2e_connections_first_record_payload_16380_or_more", 1)
+		} else if n >= 16000 {
+			run.Add("e2e_connections_first_record_payload_16000_to_16379", 1)
+		}
+	}
 	nreq := 2 + r.Intn(4)
 	tags := make([]string, nreq)
 	for k := range tags {
